@@ -38,7 +38,8 @@ bool CSVParser::deserialize_chunk(bool next, container& out, const std::string& 
   field value;
   bool first =  true;
   bool error = false;
-  bool encap = next;
+  /* nothing to continue: the line starts a record */
+  bool encap = next && !out.empty();
   if (encap)
   {
     value.assign(out.back());
